@@ -62,6 +62,15 @@ def pool(ctx):
                {"k": "data", "mn": "DW", "items": [{"t": "e", "e": {"o": "*", "a": {"o": "id", "nm": "TBL"}, "b": {"o": "id", "nm": "table"}}}]}])
     ps.append([{"k": "org", "v": 0x7c00}] + both)
     ps.append([{"k": "org", "v": 0x7c00}, {"k": "bits", "v": 32}] + both)
+    # the form classes of C14 (same mnemonic and operand TYPES, different forms: moffs / ModRM, index without base, imm8 / imm16 ...)
+    # as two programs per mode that hold the same statements in opposite orders: whatever one assembly memoises per "kind of
+    # statement" meets, in the next assembly, the statement of the same kind that needs the other form first
+    import c14
+    for bits, cls in sorted(c14.form_classes().items()):
+        flat = [s_ for g in cls for s_ in g]
+        pre = [{"k": "org", "v": 0x7c00}] + ([{"k": "bits", "v": 32}] if bits == 32 else [])
+        ps.append(pre + flat)
+        ps.append(pre + flat[::-1])
     return ps
 
 
